@@ -1,6 +1,7 @@
 package sim
 
 import (
+	"strconv"
 	"encoding/hex"
 	"encoding/json"
 	"fmt"
@@ -78,6 +79,27 @@ func c09Gen(seed uint64, tier string) any {
 			sc.Stmts = append(sc.Stmts, pr.fix)
 		}
 		sc.Stmts = append(sc.Stmts, g.followUp(r))
+	}
+	if r.Chance(1, 5) {
+		// bodies spelled like a dice family's syntax, defined without a macro, later USED inside an
+		// input that carries a macro, then used again without one: what the text means is fixed by the
+		// VM's own flags, in the original and in the restored VM alike
+		type famBody struct{ setup, macro, use string }
+		fb := Pick(r, []famBody{
+			{"b2 = 7; p1 = 3; func famf() { return b2 + p1 }", "coc", "famf()"}, {"b2 = 7; &famc = b2 + 1", "coc", "famc"},
+			{"f = 3; func famf() { return f + 1 }", "fate", "famf()"}, {"f = 3; &famc = f * 2", "fate", "famc + 1"},
+			{"b1 = 2; func famf(n0) { return b1 + n0 }; &famc = famf(1)", "coc", "famc + famf(2)"},
+		})
+		at := r.Intn(len(sc.Stmts) + 1)
+		rest := append([]string{fb.setup}, sc.Stmts[at:]...)
+		sc.Stmts = append(append([]string{}, sc.Stmts[:at]...), rest...)
+		sc.Stmts = append(sc.Stmts, "// #EnableDice "+fb.macro+" "+Pick(r, []string{"true", "true", "false"})+"\n"+fb.use, fb.use, "// #EnableDice "+fb.macro+" true\n"+fb.use+" + 1")
+	}
+	if r.Chance(1, 4) && o.Containers {
+		// keys that need escaping in JSON, of many lengths, repeated in sibling values
+		k := Pick(r, []string{"R&D <budget> ", "<em>HP</em>", "a&b", "<<>>", "q\"uote<", "tab\t&"}) + strings.Repeat(Pick(r, []string{"x", "é", "&", "_"}), r.Range(0, 40))
+		k = strings.ReplaceAll(k, "'", "")
+		sc.Stmts = append(sc.Stmts, "kd = {'"+k+"': "+strconv.Itoa(r.Range(0, 9))+", 'zbackup': {'"+k+"': "+strconv.Itoa(r.Range(0, 99))+"}, 'zold': [{'"+k+"': "+strconv.Itoa(r.Range(0, 9))+"}, {'"+k+"': 1}]}; kd", "kd['"+k+"']")
 	}
 	if r.Chance(1, 6) {
 		sc.StaleAt = r.Intn(len(sc.Stmts))
@@ -367,7 +389,7 @@ func c09Exec(raw json.RawMessage, res *RunResult) {
 					break
 				}
 				kind := "restore-mismatch:"
-				if strings.Contains(strings.Join(sc.Stmts, ""), "#EnableDice") {
+				if macroAroundDefinition(sc.Stmts) {
 					// parse-time flags set by a macro are not part of a function's or computed value's stored
 					// text: its own signature (an open finding)
 					kind = "restore-mismatch-with-macro-in-script:"
@@ -382,6 +404,18 @@ func c09Exec(raw json.RawMessage, res *RunResult) {
 	res.Nontrivial = compared >= 3
 	res.CaseKey = HashStr(strings.Join(sc.Stmts, "\x00"))
 	_ = hex.EncodeToString
+}
+
+// macroAroundDefinition: some statement carries a flag macro AND defines a function or computed
+// value (the open finding: such a body is compiled under the macro's flags, its stored text does not
+// carry them). A macro around a mere use of a value defined elsewhere does not qualify.
+func macroAroundDefinition(stmts []string) bool {
+	for _, st := range stmts {
+		if strings.Contains(st, "#EnableDice") && (strings.Contains(st, "func ") || strings.Contains(st, "&")) {
+			return true
+		}
+	}
+	return false
 }
 
 // unpatchedJumpInBodies returns the name of a jump instruction without offset found in the compiled
